@@ -57,11 +57,12 @@ def run_one(item):
 
 
 def main():
-    pat = sys.argv[1] if len(sys.argv) > 1 else ""
+    pats = sys.argv[1:]
+
     items = []
     for p in sorted(glob.glob(os.path.join(VERIF, "mutants", "C*.patch"))):
         name = os.path.basename(p)[:-6]
-        if pat and pat not in name:
+        if pats and not any(p_ in name for p_ in pats):
             continue
         items.append(("mutant", name, p, [name.split("-")[0]]))
     for d in sorted(glob.glob(os.path.join(VERIF, "seeded", "*"))):
@@ -70,7 +71,7 @@ def main():
         if not os.path.exists(patch):
             continue
         name = "seeded/" + os.path.basename(d)
-        if pat and pat not in name:
+        if pats and not any(p_ in name for p_ in pats):
             continue
         props = [re.match(r"C\d\d", os.path.basename(d)).group(0)]
         if os.path.exists(meta):
@@ -83,10 +84,32 @@ def main():
             for p, res in out.items():
                 rows.append((name, p, res))
                 print("%-55s %-4s %s" % (name, p, res), flush=True)
-    with open(os.path.join(VERIF, "mutants", "SELFTEST.md"), "w") as f:
+    path = os.path.join(VERIF, "mutants", "SELFTEST.md")
+    if pats and os.path.exists(path):
+        # a partial run updates its rows and keeps the others (rows of
+        # changes that no longer exist are dropped)
+        old = []
+        for ln in open(path):
+            m = re.match(r"\| (\S+) \| (C\d\d) \| (.*) \|$", ln.rstrip("\n"))
+            if m:
+                old.append((m.group(1), m.group(2), m.group(3)))
+        new = {(n, p): r for n, p, r in rows}
+        merged = []
+        for n, p, r in old:
+            f_ = os.path.join(VERIF, n, "patch.diff") if n.startswith(
+                "seeded/") else os.path.join(VERIF, "mutants", n + ".patch")
+            if not os.path.exists(f_):
+                continue
+            merged.append((n, p, new.pop((n, p), r)))
+        merged += [(n, p, r) for (n, p), r in new.items()]
+        rows_out = sorted(merged, key=lambda x: (x[0].startswith("seeded/"),
+                                                 x[0], x[1]))
+    else:
+        rows_out = rows
+    with open(path, "w") as f:
         f.write("# Sensitivity self-test (tools/selftest.py)\n\n"
                 "| change | check | result |\n|---|---|---|\n")
-        for name, p, res in rows:
+        for name, p, res in rows_out:
             f.write("| %s | %s | %s |\n" % (name, p, res))
     missed = [r for r in rows if r[2].startswith("MISSED")]
     print("%d changes, %d missed" % (len(rows), len(missed)))
